@@ -67,5 +67,6 @@ class References:
     return None
 
   def _initialize_references(self):
+    self._check_items_not_self()
     for i in range(len(self.items)):
       self.items[i] = self._line_for_ref_symbol(self.items[i])
